@@ -573,6 +573,30 @@ func runC09(c *h.Ctx) {
 			vars = stdVars1
 		}
 		doc := gen.Doc(r, d)
+		if i%8 == 5 {
+			// a recursive descent evaluated for existence inside the filter
+			// of another one, over overlapping containers
+			lit := int64(1 + r.IntN(2))
+			inner := &gen.N{K: gen.KCurrent, Next: &gen.N{K: gen.KAny, First: int64(r.IntN(2)), Last: []int64{-1, 2, 3}[r.IntN(3)],
+				Next: &gen.N{K: gen.KFilter, A: &gen.N{K: gen.KBin, S: "==", A: &gen.N{K: gen.KCurrent}, B: &gen.N{K: gen.KInt, I: lit}}}}}
+			var cond *gen.N = &gen.N{K: gen.KUn, S: "exists", A: inner}
+			if r.IntN(4) == 0 {
+				cond = &gen.N{K: gen.KUn, S: "!", A: cond}
+			}
+			chain = &gen.N{K: gen.KRoot}
+			chain.Append([]*gen.N{{K: gen.KAny, First: 0, Last: -1}, {K: gen.KAny, First: 1, Last: 2}, {K: gen.KAnyArray}, {K: gen.KAny, First: 0, Last: 1}}[r.IntN(4)])
+			chain.Append(&gen.N{K: gen.KFilter, A: cond})
+			if r.IntN(3) == 0 {
+				chain.Append(&gen.N{K: gen.KMethod, S: "type"})
+			}
+			nsteps = 0
+			for x := chain.Next; x != nil; x = x.Next {
+				nsteps++
+			}
+			dd := gen.DocCfg{Depth: 5, MaxKids: 3, MaxMembers: 1, Keys: []string{"a", "b"}, Strs: []string{"s"}, Nums: []string{"1", "2", "3"}}
+			doc = gen.Doc(r, dd)
+			vars = stdVars1
+		}
 		if i%8 == 3 {
 			// a filter whose condition looks a value up in a variable by a
 			// member of the current item ($arr[@.a]): the suffix is still
